@@ -14,6 +14,7 @@ import (
 	"fmt"
 	"sort"
 	"sync"
+	"sync/atomic"
 	"time"
 
 	"github.com/jonboulle/clockwork"
@@ -55,6 +56,7 @@ type Real struct {
 	// so nothing ever waits on this clock; it only answers Now().
 	Clock *clockwork.FakeClock
 	rec   *recTracer
+	busy  atomic.Bool
 	// OutgoingCap is the capacity of the outgoing queue of the NEXT collector built by Reset (default 64).
 	// The real send() blocks when the queue is full (nobody drains it in handler mode): it must exceed
 	// the number of traces kept between two Send() calls.
@@ -131,6 +133,12 @@ func (r *Real) Close() {
 }
 
 func (r *Real) process(sp *types.Span) error {
+	// handler mode is single-goroutine: two routers (or two asynchronously dispatched peer batches) handing
+	// spans over at the same time would be a harness bug, not a collector behaviour.
+	if !r.busy.CompareAndSwap(false, true) {
+		panic("nodecoll: spans handed to the collector concurrently (raise pipeline.Options.MaxBatchSize so that no batch is dispatched asynchronously)")
+	}
+	defer r.busy.Store(false)
 	r.Arrivals = append(r.Arrivals, sp)
 	r.Coll.VerifProcessSpan(r.Coll.VerifWorkerFor(sp.TraceID), sp)
 	return nil
